@@ -8,6 +8,7 @@ EXTENDS DirArchiveOps, Json
 CONSTANTS Mode,        \* "dir" | "archive"
           SizeMax,     \* index.Options.SizeMax used by the replay (bytes)
           MaxMembers,  \* archive mode: bound on the member list
+          Scope,       \* dir mode: 2 = the whole product of the option groups, 1 = a slice of it
           Emit
 
 \* ------------------------------------------------------------------ contents
@@ -62,8 +63,13 @@ GroupS == {<<D(SgDir), F(SgIgnore, Lit(IgnoreTexts[k]))>> : k \in 1..Len(IgnoreT
 GroupE == {<<D(pE)>>}
 GroupL == {<<S(pL, tNo)>>}
 Opt(G) == G \cup {<<>>}
-Trees == {a \o g \o d \o s \o e \o l : a \in Opt(GroupA), g \in Opt(GroupG), d \in Opt(GroupD),
-                                       s \in Opt(GroupS), e \in Opt(GroupE), l \in Opt(GroupL)}
+\* Scope 1: three of the contents, the empty directory and the dangling link always present
+SliceA == {<<F(pA, c)>> : c \in {Norm1, Large2, Small4}}
+Trees == IF Scope = 2
+         THEN {a \o g \o d \o s \o e \o l : a \in Opt(GroupA), g \in Opt(GroupG), d \in Opt(GroupD),
+                                            s \in Opt(GroupS), e \in Opt(GroupE), l \in Opt(GroupL)}
+         ELSE {a \o g \o d \o s \o e \o l : a \in Opt(SliceA), g \in Opt(GroupG), d \in Opt(GroupD),
+                                            s \in Opt(GroupS), e \in GroupE, l \in GroupL}
 
 IgnoreDirs == {pGit, <<46, 104, 103>>, <<46, 115, 118, 110>>}     \* .git .hg .svn (the flag's default)
 
